@@ -57,6 +57,8 @@ type harnessResult struct {
 	reached      map[string]int
 	covers       map[string]bool
 	witness      map[string]*Model
+	crossQueries int
+	crossTime    time.Duration
 }
 
 func fatal(code int, f string, a ...interface{}) {
@@ -432,7 +434,63 @@ func cmdRun(args []string) {
 		}(i, h)
 	}
 	wg.Wait()
+	// thorough tier: decide everything again with a second solver (z3 5.x) and compare the verdicts
+	if tier == 1 && solverBin == "z3" && os.Getenv("VERIF_CROSS") != "0" {
+		second := make([]*harnessResult, len(hs))
+		var wg2 sync.WaitGroup
+		for i, h := range hs {
+			wg2.Add(1)
+			go func(i int, h *harnessInfo) {
+				defer wg2.Done()
+				second[i] = runHarness(prog, spkgs, h, tier, "z3-new", "")
+			}(i, h)
+		}
+		wg2.Wait()
+		crossCheck(results, second)
+	}
 	extraOverlay = extra
 	code := report(prop, tierName, seed, results, loadDur, time.Since(t0), verbose, noEvidence)
 	os.Exit(code)
+}
+
+// crossCheck compares, per harness and obligation label, the verdicts of two solvers; a difference makes the
+// run inconclusive (it is appended to the first result's inconclusive list).
+func crossCheck(a, b []*harnessResult) {
+	summary := func(r *harnessResult) map[string]string {
+		m := map[string]map[string]bool{}
+		for _, ob := range r.obligs {
+			if m[ob.Label] == nil {
+				m[ob.Label] = map[string]bool{}
+			}
+			m[ob.Label][ob.Result] = true
+		}
+		out := map[string]string{}
+		for l, s := range m {
+			var ks []string
+			for k := range s {
+				ks = append(ks, k)
+			}
+			sort.Strings(ks)
+			out[l] = strings.Join(ks, "+")
+		}
+		return out
+	}
+	for i := range a {
+		sa, sb := summary(a[i]), summary(b[i])
+		a[i].crossQueries = b[i].queries
+		a[i].crossTime = b[i].solverTime
+		for l, va := range sa {
+			if vb := sb[l]; vb != va {
+				a[i].inconclusive = append(a[i].inconclusive, fmt.Sprintf("solvers disagree on %s: z3 4.8 says %s, z3 5.x says %s", l, va, vb))
+			}
+		}
+		for l, vb := range sb {
+			if _, ok := sa[l]; !ok {
+				a[i].inconclusive = append(a[i].inconclusive, fmt.Sprintf("solvers disagree on %s: only z3 5.x has solver verdicts (%s)", l, vb))
+			}
+		}
+		if a[i].paths != b[i].paths {
+			a[i].inconclusive = append(a[i].inconclusive, fmt.Sprintf("solvers disagree on the number of feasible paths (%d vs %d)", a[i].paths, b[i].paths))
+		}
+	}
 }
